@@ -32,9 +32,11 @@ namespace vt
     {
         alignas(16) char buf[sizeof(ob::SpaceInformation)];
         ob::SpaceInformation *si() { return reinterpret_cast<ob::SpaceInformation *>(buf); }
-        void init(ob::StateSpace *sp, ob::StateValidityChecker *svc, ob::MotionValidator *mv = nullptr)
+        // vtbl: &vt_vtbl_X[2] of SpaceInformation's vtable when the unit calls SpaceInformation's own virtual methods
+        void init(ob::StateSpace *sp, ob::StateValidityChecker *svc, ob::MotionValidator *mv = nullptr, void **vtbl = nullptr)
         {
             std::memset(buf, 0, sizeof buf);
+            *(void ***)buf = vtbl;
             set_raw(si()->stateSpace_, sp);
             set_raw(si()->stateValidityChecker_, svc);
             set_raw(si()->motionValidator_, mv);
